@@ -19,6 +19,14 @@ def gen(r, tier, sub):
         # (recomputed tasks must report their increments once); judged by the C12 oracle (rows and counters)
         n = 60 if tier == "quick" else 1500
         cfgs = ["local", "bm M2 P2", "bm M1 P3", "bm M4 P4 MC"]
+        # counting operators fused in front of every kind of shuffle (the counting task then is a producer: with a combiner
+        # for Reduce, with partitioned output for the others), and behind it
+        rows9 = "1:1 2:2 3:3 1:4 2:5 6:6 7:7 1:8 9:9 4:1 5:2"
+        for cfg in cfgs + ["bm M2 P4 MC"]:
+            for nsh in (1, 3):
+                for sh in ("reduce N1 add", "fold N1", "reshuffle N1", "reshard N1 2", "cogroup N1 N0", "repartition N1 byval"):
+                    yield "%s ;; run N0=const %d %s ; N1=count N0 1 ; N2=%s ; OUT N2" % (cfg, nsh, rows9, sh)
+                yield "%s ;; run N0=const %d %s ; N1=count N0 0 ; N2=reduce N1 add ; N3=count N2 2 ; OUT N3 ;; run N0=count R0 0 ; N1=reduce N0 max ; OUT N1" % (cfg, nsh, rows9)
         for i in range(n):
             nsh = r.rng(1, 3)
             rows = " ".join("%d:%d" % (r.below(6), r.rng(0, 20)) for _ in range(r.rng(1, 12)))
